@@ -258,9 +258,11 @@ def coqc(path, timeout=1500):
 
 def run_coq_shards(tag, bodies, timeout=1500):
     """bodies: list of Coq source texts; compiled in parallel; returns list of (rc, output)"""
-    d = os.path.join(CASES, tag)
+    d = os.path.join(CASES, "%s.%d" % (tag, os.getpid()))      # per process: two checks of the same property may run at the same time
     shutil.rmtree(d, ignore_errors=True)
-    os.makedirs(d)
+    os.makedirs(d, exist_ok=True)
+    import atexit
+    atexit.register(shutil.rmtree, d, True)
     paths = []
     for i, b in enumerate(bodies):
         p = os.path.join(d, "s%d.v" % i)
